@@ -47,11 +47,14 @@ def check_construction(case, rec):
 
     flat = c01.flat_values(case)
     a = numpy.array(flat, dtype=numpy.int64).reshape(case["shape"])
+    a = c01.as_given(a, case.get("in_dtype", "int64"), case.get("layout", "C"))
     kwargs = {}
     if case["common"] is not None:
         kwargs["common"] = case["common"]
     if case["counts"]:
         kwargs["counts"] = {v: flat.count(v) for v in sorted(set(flat))}
+        for v in case.get("counts_extra", []):
+            kwargs["counts"].setdefault(v, 0)  # categories that do not occur, listed with count 0
     if case["mapping"] is not None:
         kwargs["mapping"] = {k: v for k, v in case["mapping"]}
     if a.size == 0 and case["common"] is None and not kwargs.get("mapping"):
